@@ -29,7 +29,9 @@ Check(ev, k) ==
       f1 == IF ev.o1 = ideal THEN {} ELSE {[l |-> k, n |-> ev.n, clause |-> "oneshot", want |-> ideal, got |-> ev.o1, dev |-> Explain(ev, ev.o1)]}
       f2 == IF ev.o2 = ideal THEN {} ELSE {[l |-> k, n |-> ev.n, clause |-> "validator", want |-> ideal, got |-> ev.o2, dev |-> Explain(ev, ev.o2)]}
       f3 == IF ev.o1 = ev.o2 THEN {} ELSE {[l |-> k, n |-> ev.n, clause |-> "agree", want |-> ev.o1, got |-> ev.o2, dev |-> ""]}
-  IN f1 \cup f2 \cup f3
+      \* events built from the repository's labelled suite also carry the label: the ORACLE must agree with it
+      f4 == IF "label" \in DOMAIN ev /\ ev.label # ideal THEN {[l |-> k, n |-> ev.n, clause |-> "suite-label", want |-> ev.label, got |-> ideal, dev |-> ""]} ELSE {}
+  IN f1 \cup f2 \cup f3 \cup f4
 
 Init == l = 1 /\ fails = {}
 Next == /\ l <= Len(Trace)
